@@ -940,12 +940,17 @@ fn vehicle_rules(p: &Value, put: &mut impl FnMut(&'static str, RuleOutcome)) {
                 }
             }
         }
-        // several shifts: the text does not say whether they may intersect
+        // several shifts: E1302 refers to the "time windows rules defined for jobs in E1103", whose last one is that several windows
+        // must not intersect: two shifts with end times which share more than an instant break it; shifts that only touch, and
+        // intersections with a shift without end, are left unspecified
         for a in 0..shift_windows.len() {
             for b in a + 1..shift_windows.len() {
                 if let (Some((s1, e1)), Some((s2, e2))) = (shift_windows[a].1, shift_windows[b].1) {
-                    if e1.min(e2) - s1.max(s2) > -1. {
-                        e1302.u(format!("fleet.vehicles[{v}].shifts: shifts {a} and {b} intersect"));
+                    let overlap = e1.min(e2) - s1.max(s2);
+                    if overlap >= 1. && e1.is_finite() && e2.is_finite() {
+                        e1302.v(format!("fleet.vehicles[{v}].shifts: shifts {a} and {b} intersect"));
+                    } else if overlap > -1. {
+                        e1302.u(format!("fleet.vehicles[{v}].shifts: shifts {a} and {b} touch or intersect a shift without end"));
                     }
                 }
             }
